@@ -521,7 +521,7 @@ def selfcheck(prog, cj, model, shapes, dtypes, pos_names, opts):
         except Exception as e:
             ort_outs = None
             ort_err = f"{type(e).__name__}: {str(e)[:600]}"
-            if "INVALID_GRAPH" in ort_err or "Type Error" in ort_err or "INVALID_PROTOBUF" in ort_err:
+            if any(k in ort_err for k in ("INVALID_GRAPH", "Type Error", "INVALID_PROTOBUF", "Failed to load model")):
                 # ONNX Runtime refuses the model itself (not a missing kernel, not an unsupported opset)
                 res["ort_rejects"] = ort_err[:300]
                 return res
@@ -714,6 +714,12 @@ def replay_concrete(prog, cj, model, arrays, pos_names):
                                             deltas.append(np.full_like(dd, np.inf) if clipped_side else dd)
                                 if len(deltas) == 2:
                                     own = np.maximum(own, np.minimum(deltas[0], deltas[1]))
+                            # where a 1-ulp input change moves the reference by more than a quarter of its
+                            # own magnitude (tan next to a pole), JAX's evaluation has no correct digit
+                            # to compare with: excluded whatever the model returns there (inf included)
+                            with np.errstate(all="ignore"):
+                                hopeless = np.isfinite(r64) & (own > 0.25 * np.abs(r64)) & (np.abs(r64) > 1.0)
+                            bad = bad & ~hopeless
                             slack = 1e-12 if strict64 else 1e-5
                             bad = bad & np.isfinite(r64) & (np.abs(o64 - r64) > 32 * own + slack * (1 + np.abs(r64)))
                 if np.any(bad) and strict64:
